@@ -24,6 +24,11 @@ def pipelines():
     add('map.split(3)[1]', lambda d: d.split(3)[1])
     add('map.shard(3,2)', lambda d: d.shard(3, 2))
     add('map.cache()', lambda d: d.cache(), True)
+    # unbatch: result k needs exactly the input example (batch) that holds it -- nothing beyond that batch is pulled
+    add('map.map(fragment).unbatch()', lambda d: d.map(lambda x: [x, x]).unbatch(), False)
+    add('map.map(fragment3).unbatch()[via prefetch(1,1) off]', lambda d: d.map(lambda x: (x, x, x)).unbatch(), False)
+    add('map.filter(even)', lambda d: d.filter(lambda x: x % 2 == 0), False)
+    add('map.catch()', lambda d: d.catch(), False)
     return P
 
 
@@ -64,8 +69,11 @@ def search(tier='quick'):
             it = iter(ds)
             got = [next(it) for _ in range(k)]
             need = sorted(i for r in ref[:k] for i in r)
-            if 'cache' in name:
+            if 'cache' in name or 'unbatch' in name:
                 need = sorted(set(need))
+            if 'filter' in name:
+                # a lazy filter evaluates every example up to (and including) the k-th passing one
+                need = list(range((max(need) + 1) if need else 0))
             if sorted(log) != need:
                 fails.append({'scenario': '%s: consuming %d results of a fresh iteration' % (name, k), 'mismatches': [
                     {'clause': 'prefix-demand', 'observed': 'function applied to %r' % sorted(log), 'expected': repr(need)}]})
